@@ -5,8 +5,8 @@
 package rlab
 
 import (
-	"errors"
 	"encoding/binary"
+	"errors"
 	"fmt"
 	"hash/fnv"
 	"io"
@@ -310,6 +310,10 @@ type ConnPlan struct {
 	CutAfter  int64  // cut both directions after this many client->server bytes following the handshake; < 0 never
 	Inject    []byte // raw bytes injected client->server
 	InjectAt  int    // ... in front of this (0-based) frame
+	// HoldHandshake > 0: the client's handshake is held back this long; whatever the client has sent by then
+	// goes to the server in the same write (a slow path that coalesces: legal TCP behaviour). A conforming
+	// client sends nothing before the server has answered its handshake, so on a correct tree this is a delay.
+	HoldHandshake time.Duration
 }
 
 // Proxy forwards client->server bytes according to per-connection plans.
@@ -332,6 +336,9 @@ type Proxy struct {
 	CutsInsideFrame  atomic.Int64
 	FramesSeen       atomic.Int64
 	Refused          atomic.Int64
+	AcceptErrors     atomic.Int64
+	HandshakesHeld   atomic.Int64
+	HeldWithMore     atomic.Int64 // the client had sent more than its handshake by the end of the hold
 }
 
 // NewProxy listens on a free port and forwards to target.
@@ -377,7 +384,14 @@ func (p *Proxy) accept() {
 	for {
 		c, err := p.ln.Accept()
 		if err != nil {
-			return
+			if p.closed.Load() {
+				return
+			}
+			// a transient accept error (descriptor pressure on a busy machine) must not leave a listening socket
+			// that nobody serves: connections would be established by the kernel and never answered
+			p.AcceptErrors.Add(1)
+			time.Sleep(5 * time.Millisecond)
+			continue
 		}
 		p.mu.Lock()
 		i := p.conns
@@ -429,7 +443,32 @@ func (p *Proxy) serve(client net.Conn, plan ConnPlan) {
 	if _, err := io.ReadFull(client, body); err != nil {
 		return
 	}
-	if _, err := server.Write(append(hdr, body...)); err != nil {
+	first := append(append([]byte{}, hdr...), body...)
+	if plan.HoldHandshake > 0 {
+		p.HandshakesHeld.Add(1)
+		deadline := time.Now().Add(plan.HoldHandshake)
+		extra := make([]byte, 0, 1<<16)
+		buf := make([]byte, 1<<16)
+		for time.Now().Before(deadline) {
+			_ = client.SetReadDeadline(deadline)
+			k, err := client.Read(buf)
+			extra = append(extra, buf[:k]...)
+			if err != nil {
+				break
+			}
+		}
+		_ = client.SetReadDeadline(time.Time{})
+		if len(extra) > 0 {
+			// the client did not wait for the answer: everything in one write, then plain forwarding
+			p.HeldWithMore.Add(1)
+			if _, err := server.Write(append(first, extra...)); err != nil {
+				return
+			}
+			_, _ = io.Copy(server, client)
+			return
+		}
+	}
+	if _, err := server.Write(first); err != nil {
 		return
 	}
 	var sent int64 // post-handshake bytes forwarded
